@@ -96,6 +96,12 @@ CHECKS.update({
         note='Trusted: symnp engine (object-dtype ufunc loops are the model of the numbers; dtype shadow reproduces NumPy casting rules). Memory sharing, asarray round trip, modf out plumbing and result types are concrete facts. One known finding (ProductSpaceElement as out of a NumPy ufunc call).',
         ref='DESIGN.md section 4 C17'),
 })
+CHECKS.update({
+    'C20': dict(
+        text='Constant weightings (all ordered class pairs, symbolic constants), IntervalProd (1-2d, symbolic limits, membership of a symbolic point), RectGrid and RectPartition (2-3 symbolic nodes) are built from solver variables; on every path of a == b the solver decides symmetry, equal => equal hash (hash of a symbolic attribute is a token chosen by entailment, array bytes included), equal => equal attributes, transitivity on triples. Families of ~30 spaces and ~20 sets are enumerated concretely for reflexivity / symmetry / hash consistency / transitivity / membership-iff-own-space-equal. element(): x itself iff it belongs, converted values otherwise (symbolic entries), documented exceptions for incompatible shapes / part counts; element indexing (ints, slices, tuples, lists, masks) commutes with asarray for all contents; astype / real_space / complex_space / byaxis / byaxis_in / product-space indexing carry the selected shape, dtype, field and weighting (concrete facts).',
+        note='Trusted: symnp engine (hash tokens by entailment), z3. Array weightings compare by identity of the array (documented). One known finding (ProductSpace.__getitem__ drops the weighting).',
+        ref='DESIGN.md section 4 C20'),
+})
 NOT_YET = {}
 
 
